@@ -24,17 +24,17 @@ TEMPLATES = {
     'link-text':      'see [{A} {P} {B}](http://example.com/) here',
     'link-title':     'see [text](http://example.com/ "{A} {P} {B}") here',
     'link-url':       'see [text](http://example.com/{A}{P}{B}) here',
-    'ref-link':       'see [{A} {P} {B}][lab] here\n\n[lab]: http://example.com/ "T"',
-    'ref-title':      'see [text][lab2] here\n\n[lab2]: http://example.com/ "{A} {P} {B}"',
+    'ref-link':       'see [{A} {P} {B}][lab{N}] here\n\n[lab{N}]: http://example.com/ "T"',
+    'ref-title':      'see [text][lbl{N}] here\n\n[lbl{N}]: http://example.com/ "{A} {P} {B}"',
     'image-alt':      'img ![{A} {P} {B}](pic.png) here',
     'image-title':    'img ![alt](pic.png "{A} {P} {B}") here',
     'figure':         '![{A} {P} {B}](pic.png "title")',
     'link-attr':      'see [text](http://example.com/ "T" class="{A}{P}{B}") here',
     'inline-footnote': 'note[^{A} {P} {B}] here',
-    'ref-footnote':   'note[^fn9] here\n\n[^fn9]: {A} {P} {B}',
-    'citation':       'cite[#c9] here\n\n[#c9]: {A} {P} {B}',
-    'glossary':       'term [?g9] here\n\n[?g9]: {A} {P} {B}',
-    'abbreviation':   'The AB9 here\n\n[>AB9]: {A} {P} {B}',
+    'ref-footnote':   'note[^fn{N}] here\n\n[^fn{N}]: {A} {P} {B}',
+    'citation':       'cite[#c{N}] here\n\n[#c{N}]: {A} {P} {B}',
+    'glossary':       'term [?g{N}] here\n\n[?g{N}]: {A} {P} {B}',
+    'abbreviation':   'The AB{N} here\n\n[>AB{N}]: {A} {P} {B}',
     'code-span':      'code `{A} {P} {B}` here',
     'fenced-code':    '```\n{A} {P} {B}\n```',
     'fenced-lang':    '```{A}{P}{B}\ncode\n```',
@@ -91,7 +91,7 @@ def build(rng, payload_fn, kinds=None, nslots=None, eol='\n'):
         a, b = 's%da' % counter[0], 's%db' % counter[0]
         p = payload_fn(rng, kind)
         slots.append(dict(kind=kind, a=a, b=b, payload=p))
-        return tpl.replace('{A}', a).replace('{B}', b).replace('{P}', p)
+        return tpl.replace('{A}', a).replace('{B}', b).replace('{P}', p).replace('{N}', str(counter[0]))
     for k in meta:
         mlines.append(fill(k, META_TEMPLATES[k]))
     for k in body:
